@@ -59,8 +59,8 @@ def lean_sources():
     return sorted(out)
 
 
-THOROUGH_SCALE = {'C01': 8, 'C02': 8, 'C03': 8, 'C04': 6, 'C06': 6, 'C07': 6, 'C08': 6, 'C09': 4, 'C10': 4, 'C11': 4, 'C12': 5,
-                  'C13': 2, 'C14': 4, 'C15': 8, 'C20': 8}
+THOROUGH_SCALE = {'C01': 24, 'C02': 40, 'C03': 24, 'C04': 6, 'C06': 20, 'C07': 20, 'C08': 30, 'C09': 4, 'C10': 4, 'C11': 4, 'C12': 20,
+                  'C13': 2, 'C14': 12, 'C15': 40, 'C20': 60}
 
 
 def grep_forbidden():
